@@ -46,7 +46,8 @@ QUICK = {'budget_s': 40}
 THOROUGH = {'budget_s': 480}
 EXPECTED_PROBES = ['two_tests_overlapped', 'consecutive_runs', 'own_record_logger_from_outsider', 'foreign_uid_message',
                    'framework_message_in_window', 'mac_redacted', 'mac_in_nonstr_arg', 'mapping_args', 'plug_ctor_log',
-                   'aborted_run', 'message_during_other_remove', 'post_run_logging']
+                   'aborted_run', 'message_during_other_remove', 'post_run_logging',
+                   'cli_verbosity_0', 'cli_verbosity_1', 'cli_verbosity_2', 'debug_message_recorded']
 
 PROF_A = gen.profile(max_nodes=6, max_depth=2, p_logs=500, p_xlogs=500, p_plug=450, p_attach=100, p_meas=150, p_diag=150,
                      p_dur=250, p_fault_beh=250, p_test_start=250, p_test_diag=100, p_settings=150)
@@ -180,6 +181,26 @@ class LogWatch(object):
         if left and not lw.viols:
           lw.viols.append({'clause': 'handler_still_installed_after_remove', 'details': {'n': len(left)}})
 
+    # level gate: a call that never reaches Logger.handle was dropped by a logger level
+    self._orig_level_methods = {}
+    self.suppressed = []
+
+    def make(name, orig):
+      def method(logger, msg, *args, **kwargs):
+        if not logger.name.startswith('openhtf') or core.cur() is None:
+          return orig(logger, msg, *args, **kwargs)
+        n0 = len(lw.msgs)
+        t0 = lw.tick()
+        try:
+          return orig(logger, msg, *args, **kwargs)
+        finally:
+          if len(lw.msgs) == n0:
+            lw.suppressed.append({'name': logger.name, 'level': name, 'b': t0, 'e': lw.tick(), 'msg': str(msg)[:60]})
+      return method
+
+    for lname in ('debug', 'info', 'warning', 'error', 'critical'):
+      self._orig_level_methods[lname] = getattr(logging.Logger, lname)
+      setattr(logging.Logger, lname, make(lname, self._orig_level_methods[lname]))
     logging.Logger.handle = handle
     logs.RecordHandler.emit = emit
     logs.initialize_record_handler = init
@@ -187,6 +208,8 @@ class LogWatch(object):
 
   def uninstall(self):
     logging.Logger.handle = self._orig_handle
+    for lname, orig in self._orig_level_methods.items():
+      setattr(logging.Logger, lname, orig)
     self._logs.RecordHandler.emit = self._orig_emit
     self._logs.initialize_record_handler = self._orig_init
     self._logs.remove_record_handler = self._orig_remove
@@ -269,6 +292,8 @@ def evaluate(lw, probes):
                                                                       'want': list(map(str, want))}})
       if kind == 'framework':
         probes['framework_message_in_window'] = 1
+      if m['level'] <= logging.DEBUG:
+        probes['debug_message_recorded'] = 1
       if kind == 'own_plug' and 'ctor log' in (m['text'] or ''):
         probes['plug_ctor_log'] = 1
     # final content = the entries appended, in that order, unchanged
@@ -303,6 +328,13 @@ def evaluate(lw, probes):
         viols.append({'clause': 'message_missing_from_record', 'details': {
             'test': run['name'], 'kind': _kind_of(m, run), 'during_removal_of_another_runs_handler': during,
             'text': (m['text'] or '')[:60]}})
+        break
+    for sp in lw.suppressed:
+      if run['i1'] is not None and sp['b'] > run['i1'] and (run['r0'] is None or sp['e'] < run['r0']) and \
+          ref_passes(sp['name'], uid):
+        viols.append({'clause': 'message_dropped_by_a_logger_level', 'details': {
+            'test': run['name'], 'level': sp['level'], 'logger_kind': 'framework' if owner_of(sp['name']) is None else 'own',
+            'msg': sp['msg']}})
         break
     if run['r0'] is None:
       viols.append({'clause': 'handler_never_removed', 'details': {'test': run['name']}})
@@ -396,6 +428,14 @@ def run_one(tape):
   if conf:
     CONF.load(_override=True, **conf)
   htf_logger = logging.getLogger(logs.LOGGER_PREFIX)
+  # the process' CLI verbosity (-v / -vv): the one-time logging configuration is redone per run
+  # with a tape-chosen verbosity (console output stays suppressed through CLI_QUIET)
+  verbosity = tape.pick([0, 0, 1, 2], 'cli_verbosity')
+  saved_logging = (list(htf_logger.handlers), htf_logger.level, htf_logger.propagate, logs.CLI_LOGGING_VERBOSITY)
+  htf_logger.handlers = []
+  logs.CLI_LOGGING_VERBOSITY = verbosity
+  logs.configure_logging.__wrapped__()
+  probes_v = 'cli_verbosity_%d' % verbosity
   base_handlers = len(htf_logger.handlers)
   lw = LogWatch(sim)
   probes = {}
@@ -465,6 +505,10 @@ def run_one(tape):
         sim.end()
   finally:
     lw.uninstall()
+    htf_logger.handlers = saved_logging[0]
+    htf_logger.setLevel(saved_logging[1])
+    htf_logger.propagate = saved_logging[2]
+    logs.CLI_LOGGING_VERBOSITY = saved_logging[3]
     if conf:
       CONF.reset()
     bodies.CURRENT.pop('', None)
@@ -477,6 +521,7 @@ def run_one(tape):
     abnormal = '%s: %s' % (failed, failed_info)
   else:
     viols = evaluate(lw, probes)
+    probes[probes_v] = 1
     if post.get('record_handlers'):
       viols.append({'clause': 'record_handler_left_after_runs', 'details': {'n': post['record_handlers']}})
     elif post.get('handlers') != base_handlers:
